@@ -58,6 +58,7 @@ struct RoundSpec {
   bool extra_emitter;  // a second, idle emitter is attached as well
   bool detach_after;
   uint32_t nfuncs;     // compiler-virt: number of functions
+  bool relocate;       // the finished program is relocated to a base address (as JitRuntime::add would do)
   int dangling;        // 0 none; 1..7: one-shot state (options / extra register / inline comment) is set after the round and never consumed
 };
 
@@ -72,6 +73,7 @@ RoundSpec decode(const Op& op) {
   s.extra_emitter = f & 16; s.detach_after = f & 32;
   s.nfuncs = uint32_t(1 + ((f >> 8) & 3));
   s.dangling = int((f >> 16) & 7);
+  s.relocate = (f >> 19) & 1;
   if (s.mode == 2 && s.emitter_kind != kAsm) s.mode = 0;
   return s;
 }
@@ -96,11 +98,13 @@ gen::FuncParams make_func_params(const RoundSpec& s, uint32_t i, bool global_con
 
 // The finished program is laid out (section offsets, virtual sizes, cross-section fixups): part of what recycled and
 // fresh objects must agree on.
-bool layout(CodeHolder& code, std::vector<uint32_t>& errors) {
+bool layout(CodeHolder& code, std::vector<uint32_t>& errors, bool relocate) {
   Error err = code.flatten();
   if (err != Error::kOk && sim::run_faults_fired_total() > 0) return false;
   errors.push_back(uint32_t(err));
   if (err == Error::kOk) { err = code.resolve_cross_section_fixups(); if (err != Error::kOk && sim::run_faults_fired_total() > 0) return false; errors.push_back(uint32_t(err)); }
+  // relocation stores the base in the holder; recycling must forget it again unless it was given to init()
+  if (err == Error::kOk && relocate) { err = code.relocate_to_base(0x10000000ull); if (err != Error::kOk && sim::run_faults_fired_total() > 0) return false; errors.push_back(uint32_t(err)); sim::count("c16.probe.round_relocated"); }
   return true;
 }
 
@@ -122,7 +126,7 @@ bool generate(const RoundSpec& s, CodeHolder& code, BaseEmitter& e, gen::Recordi
     if (err != Error::kOk) return false;
     // no virtual register may keep pointing into the (reset) memory of the register allocator
     for (VirtReg* v : static_cast<BaseCompiler&>(e).virt_regs()) SIM_CHECK(!v->has_work_reg(), "c16:residue-work-reg", "virtual register %u still references its work register after finalize()", v->id());
-    return layout(code, errors);
+    return layout(code, errors, s.relocate);
   }
   gen::Program p = make_program(s);
   gen::ApplyCtx ctx;
@@ -148,7 +152,7 @@ bool generate(const RoundSpec& s, CodeHolder& code, BaseEmitter& e, gen::Recordi
     errors.push_back(uint32_t(err));
     if (err != Error::kOk) return false;
   }
-  return layout(code, errors);
+  return layout(code, errors, s.relocate);
 }
 
 void setup_emitter(BaseEmitter& e, const RoundSpec& s, StringLogger* logger, gen::RecordingHandler* eh) {
@@ -450,6 +454,7 @@ Plan generate_rounds_with(uint64_t seed, bool thorough, bool faults) {
     f |= uint64_t(r.below(4)) << 8;                 // nfuncs
     f |= uint64_t(r.below(kRecycleCount)) << 12;    // recycle action
     if (r.chance(1, 4)) f |= uint64_t(1 + r.below(7)) << 16;   // one-shot state left pending when the round ends
+    if (r.chance(1, 3)) f |= uint64_t(1) << 19;                // the finished program is relocated
     op.a[3] = int64_t(f);
     if (faults && r.chance(1, 3)) {
       op.faults.push_back(sim::Fault{sim::kFaultArena, uint32_t(r.below(r.chance(1, 2) ? 40 : 400)), 0});
